@@ -14,6 +14,7 @@ class AMachine(Machine):
     chunk = 12                 # runs per forked child (fork-per-run costs 20x on this VM: page faults)
     run_timeout = 180.0
     isolate_shrink = True
+    shrink_max_evals = 150       # every candidate is a forked run of ~1 s
     selftest_runs = 12
     quick_budget_s = 170.0
     thorough_budget_s = 1500.0
@@ -29,7 +30,7 @@ class AMachine(Machine):
                    "gcc-backend runs draw their program from a pool of %d per batch so that the private on-disk block cache warms up"]
     gcc_pool = 6
     gcc_share = 0.12           # share of runs on the gcc backend
-    features = ["mem", "straddle", "stack", "call", "loop", "branch", "rep", "indirect"]
+    features = ["mem", "straddle", "stack", "call", "loop", "branch", "rep", "indirect", "multi"]
     actors = []
     quick_runs = 420
     thorough_runs = 7000
@@ -218,6 +219,7 @@ class C21(AMachine):
             "{0,1,2,3,7}, cache limit {3,4,6,10,10000}, warm start; tuner actions at seeded control points (set_options, "
             "clear_jitted_blocks), stop/resume, warm/cold restart; non-trivial = reference has >=5 ticks; distinct = distinct event-log digest")
     actors = ["tuner", "restarter"]
+    features = ["mem", "straddle", "stack", "call", "loop", "branch", "rep", "indirect", "multi", "smc"]
     expected_probes = ["tuner_set_options", "tuner_clear_cache", "stop_resume", "restart_warm", "restart_cold", "warm_start",
                        "runs_completed"]
 
@@ -239,6 +241,12 @@ class C21(AMachine):
 
 class C23(AMachine):
     pid = "C23"
+
+    def gen_knobs(self, rng):
+        k = AMachine.gen_knobs(self, rng)
+        k["warm"] = rng.random() < 0.35      # breakpoints set on code that is already translated
+        return k
+
     title = "breakpoints fire exactly when execution reaches their address"
     rule = ("seeded (program, schedule) pairs as C21 plus a debugger actor: add_breakpoint / set_breakpoint / remove_by_address / "
             "remove_by_callback at seeded control points (incl. from inside a callback), 3 callbacks, addresses = any instruction "
@@ -246,7 +254,8 @@ class C23(AMachine):
             "invocations are computed from the reference pc sequence, not from miasm's breakpoint code")
     actors = ["debugger", "tuner"]
     expected_probes = ["debugger_bp_add", "debugger_bp_set", "debugger_remove_by_address", "debugger_remove_by_callback",
-                       "bp_hit", "bp_callback_stops_run", "bp_removed_from_inside_callback", "hits_judged", "runs_completed"]
+                       "bp_hit", "bp_callback_stops_run", "bp_removed_from_inside_callback", "hits_judged", "runs_completed",
+                       "bp_on_branch_target", "warm_start"]
 
     def gen_actions(self, rng, cfg, steer):
         acts = []
@@ -254,10 +263,11 @@ class C23(AMachine):
         for _ in range(n):
             r = rng.random()
             cp = rng.choice([1, 1, self._cp(rng)])
+            where = ["L", rng.randrange(16)] if rng.random() < 0.45 else rng.randrange(200)
             if r < 0.5:
-                acts.append([cp, "bp_add", rng.randrange(200), rng.randrange(3)])
+                acts.append([cp, "bp_add", where, rng.randrange(3)])
             elif r < 0.6 and not steer:
-                acts.append([cp, "bp_set", rng.randrange(200), rng.randrange(3)])
+                acts.append([cp, "bp_set", where, rng.randrange(3)])
             elif r < 0.72:
                 acts.append([cp, "bp_rm_addr", rng.randrange(8)])
             elif r < 0.8:
@@ -290,7 +300,7 @@ class C22(AMachine):
             "at their stamped states")
     must_features = ["smc"]
     features = ["mem", "stack", "loop", "branch"]
-    actors = ["host writer", "tuner"]
+    actors = ["host writer", "tuner", "debugger"]
     diverge_class = "stale-code"
     expected_probes = ["host_write_code", "host_write_data", "tuner_set_options", "runs_completed"]
 
@@ -303,10 +313,17 @@ class C22(AMachine):
                 acts.append([cp, "hw", "code", rng.randrange(64), [rng.getrandbits(8)]])
             elif r < 0.8:
                 acts.append([cp, "hw", "data", rng.randrange(64), [rng.getrandbits(8) for _ in range(rng.randint(1, 4))]])
-            elif r < 0.9:
+            elif r < 0.88:
                 acts.append([cp, "opt", rng.choice([1, 2, 3, 5, 8, 50]), rng.choice([0, 1, 2, 3, 7])])
-            else:
+            elif r < 0.94:
                 acts.append([cp, "stop"])
+            else:
+                # the debugger registers a breakpoint between a host write and the resumption
+                acts.append([cp, "bp_add", ["L", rng.randrange(16)] if rng.random() < 0.5 else rng.randrange(200), rng.randrange(3)])
+        # host writes followed at once by another host action at the same control point
+        for a in list(acts):
+            if a[1] == "hw" and rng.random() < 0.3:
+                acts.append([a[0], "bp_add", rng.randrange(200), rng.randrange(3)])
         return acts
 
     def run(self, case, keep_log=False):
@@ -327,7 +344,7 @@ class C49(AMachine):
     must_features = ["mem", "straddle"]
     # no REP: miasm runs all iterations of a REP instruction inside one IR loop, so the reference has
     # no per-iteration states to compare a mid-REP fault stop with (stated limit, see DESIGN)
-    features = ["mem", "straddle", "stack", "call", "loop", "branch", "indirect", "ro"]
+    features = ["mem", "straddle", "stack", "call", "loop", "branch", "indirect", "ro", "multi"]
     actors = ["fault injector", "tuner"]
     gcc_share = 0.2
     expected_probes = ["fault_injected_unmap", "fault_injected_perm", "fault_stop", "fault_healed", "runs_completed",
@@ -359,7 +376,7 @@ class C20(AMachine):
             "faults); each case is executed on the python and on the gcc backend, each judged against the reference and the two "
             "compared directly (final state, breakpoint hit sequence)")
     actors = ["tuner", "debugger", "fault injector"]
-    features = ["mem", "straddle", "stack", "call", "loop", "branch", "indirect", "ro"]
+    features = ["mem", "straddle", "stack", "call", "loop", "branch", "indirect", "ro", "multi"]
     both_backends = True
     gcc_share = 1.0
     gcc_pool = 10
@@ -388,7 +405,7 @@ class C20(AMachine):
             elif r < 0.4:
                 acts.append([rng.choice([rng.randint(1, 6), cp]), "perm", rng.choice(self._pages_used(cfg)) % 2, rng.randrange(3)])
             elif r < 0.7:
-                acts.append([cp, "bp_add", rng.randrange(200), rng.randrange(3)])
+                acts.append([cp, "bp_add", ["L", rng.randrange(16)] if rng.random() < 0.4 else rng.randrange(200), rng.randrange(3)])
             elif r < 0.8:
                 acts.append([cp, "bp_rm_addr", rng.randrange(8)])
             elif r < 0.9:
